@@ -3,9 +3,10 @@ CONSTANTS
   Reqs <- Reqs3
   Parts <- P132
   RegAfter <- RegFirst
+  KeyOf <- IdKey
   Dups = {3}
   LookupAtomic = TRUE
   FailIdx = {}
-INVARIANTS NoSpurious MatchOnce NoLoss RegisterFirst
+INVARIANTS NoSpurious MatchOnce NoLoss RightType RegisterFirst
 CHECK_DEADLOCK FALSE
 VIEW McView
